@@ -329,6 +329,12 @@ class Machine(RuleBasedStateMachine):
     def numeric_query(self, i, name, val, key):
         self.s.step(["mod", i, [name, {key: val}]])
 
+    @rule(i=st.integers(0, 7), name=st.sampled_from(["update_query", "extend_query", "with_query"]),
+          pairs=st.lists(st.tuples(st.sampled_from(["a", "b", "k", "a b"]), st.sampled_from(["1", "x y", "%41", ""])).map(list), min_size=1, max_size=2))
+    def query_pairs(self, i, name, pairs):
+        # the sequence-of-pairs form, repeatedly on the same few URLs (their memoised parsed query must not be touched)
+        self.s.step(["mod", i % 3, [name, pairs]])
+
     @rule(i=st.integers(0, 7), name=st.sampled_from(sorted(SELF)))
     def selfmod(self, i, name):
         self.s.step(["selfmod", i, name])
